@@ -227,6 +227,61 @@ def judge_cluster(pid, V, sc, lines, tables, stats, judge_queries):
                                " (error: %s)" % l["soloErr"] if "soloErr" in l else ""))
 
 
+def validate_follow(traces, workdir):
+    """TLC: the leader's recorded bookkeeping follows the hand-over rules (spec/TraceFollow.tla)."""
+    os.makedirs(workdir, exist_ok=True)
+    path = os.path.join(workdir, "follow.ndjson")
+    index = []
+    nscn = 0
+    with open(path, "w") as f:
+        for scn, lines in traces.items():
+            evs = [l for l in lines if l.get("a") == "Ev"]
+            if not evs or any(l.get("a") in ("HarnessError", "ProcessCrash") for l in lines):
+                continue
+            # offsets -> entry indices of the leader's WAL (every entry the leader has processed has been logged with both)
+            idx = {}
+            for e in evs:
+                if e["e"] == "entry":
+                    idx[(e["l"], tuple(e["off"]))] = e["i"]
+            def ix(l, off):
+                off = tuple(off)
+                return 0 if off == (0, 0) else idx.get((l, off), -99)
+            nscn += 1
+            rows = [{"a": "Reset", "scn": scn}]
+            for e in evs:
+                if e["e"] == "connect":
+                    rows.append({"a": "connect", "l": e["l"], "f": e["f"], "tabs": {t: ix(e["l"], o) for t, o in e["tabs"].items()}, "earliest": ix(e["l"], e["earliest"])})
+                elif e["e"] == "join":
+                    rows.append({"a": "join", "l": e["l"], "f": e["f"], "t": e["t"].split("@")[0], "off": ix(e["l"], e["off"])})
+                elif e["e"] == "entry":
+                    rows.append({"a": "entry", "l": e["l"], "i": e["i"], "incl": e.get("incl") or []})
+                elif e["e"] == "deliver":
+                    rows.append({"a": "deliver", "l": e["l"], "f": e["f"], "i": ix(e["l"], e["off"])})
+                elif e["e"] == "lrestart":
+                    rows.append({"a": "lrestart", "l": e["l"]})
+            for r_ in rows:
+                # one shape for all lines (TLC reads them as records)
+                full = {"a": r_["a"], "scn": r_.get("scn", ""), "l": r_.get("l", 0), "f": r_.get("f", ""), "t": r_.get("t", ""), "off": r_.get("off", 0),
+                        "i": r_.get("i", 0), "incl": r_.get("incl", []), "tabs": r_.get("tabs", {"_": 0}), "earliest": r_.get("earliest", 0)}
+                f.write(json.dumps(full) + "\n")
+                index.append((scn, r_))
+    if not index:
+        return {}, 0, 0
+    mod = "---- MODULE FollowRun ----\nEXTENDS TraceFollow\n====\n"
+    cfg = "SPECIFICATION TraceSpec\nINVARIANT Done\nCHECK_DEADLOCK FALSE\n"
+    r = run_tlc(mod, "FollowRun", cfg, workdir, workers=1, timeout=1800, env={"ZV_TRACE": path}, java_opts="-Xss64m -Xmx3g")
+    m = re.search(r'<<"ZVTRACE", "(.*)">>', r.out)
+    if not m:
+        open(os.path.join(common.SCRATCH_ROOT, "last_tlc_failure.out"), "w").write(r.out)
+        raise InfraError("follow trace validation did not finish:\n" + r.out[-1500:])
+    rep = json.loads(json.loads('"' + m.group(1) + '"'))
+    fails = {}
+    for fl in rep["fails"]:
+        scn, rec = index[fl["at"] - 1]
+        fails[scn] = {"line": fl["at"], "event": rec}
+    return fails, nscn, len(index)
+
+
 def order_ok(a, b, sql):
     """Same order where ORDER BY decides it: compare the sequences of sort keys."""
     m = re.search(r"ORDER BY (.*?)( LIMIT|$)", sql)
@@ -355,7 +410,16 @@ def cluster_check(args, pid, judge_queries, topos, quick_n, thorough_n, text, no
             for n in suspects:
                 V.violations += suspects[n]
         cov["unreproduced_mismatches"] = unreproduced
-        cov.update({"traces_validated_against_impl": 0, "replayed_behaviours": len(scenarios), "fault_steps": faults,
+        # (T) the leader's follower bookkeeping, as recorded by the hooks, against the hand-over rules
+        ffails, fscn, flines = validate_follow(traces, os.path.join(work, "tvf"))
+        cov["traces_validated_against_impl"], cov["follow_trace_lines"], cov["follow_traces_rejected"] = fscn, flines, len(ffails)
+        for scn_, info in list(ffails.items())[:5]:
+            rp = common.save_replay(pid, scn_ + "-follow-trace", {"scenario": by_id[scn_], "info": info,
+                                                                  "lines": [l for l in traces.get(scn_, []) if l.get("a") == "Ev"]})
+            V.notes.append("%s: the leader's bookkeeping departs from the hand-over rules of spec/TraceFollow.tla at %s (saved %s)"
+                           % (scn_, json.dumps(info["event"])[:200], rp))
+        print("[%s] %d follow traces (%d lines) validated, %d rejected" % (pid, fscn, flines, len(ffails)), flush=True)
+        cov.update({"replayed_behaviours": len(scenarios), "fault_steps": faults,
                     "settle_points_checked": stats["settles"], "converged_states_checked": stats["converged_checked"],
                     "cluster_queries_compared": stats["queries"], "cluster_queries_with_rows": stats["queries_with_rows"],
                     "harness_errors": stats["harness_errors"], "queries_reported_incomplete": stats["queries_reported_incomplete"],
